@@ -40,7 +40,7 @@ TRUSTED = [
     "C07/E2: `if verbose:` blocks of newtonrhapson are display-only (mechanical AST non-interference scan every run); E2 paths are explored with verbose=False, verbose=True only in the bounded cross-check",
     "C07/E1: scipy.sparse csr_matrix is replaced by the dense stand-in vk/sparse_stub.py (row/column fancy slicing, dot, +=, *=, resize = zero padding, toarray) -- assumed dependency contract; spsolve is replaced by the exact symbolic solve (np.linalg.solve reference of vk/symnp.py on the densified matrix) = assumed contract 'solver(A, b) returns x with A x = b' under det A != 0",
     "C07/E1: number of items / fields / boundaries enumerated (0..3 items, 1..3 fields); A2-style uniformity in the number of mesh points",
-    "C07: xtol = +inf (as passed by newtonrhapson) is modelled by a symbolic xtol with the case xnorm < xtol; NaN norms are modelled by Boolean NaN flags (IEEE: comparisons with NaN are false) -- A1",
+    "C07: xtol = +inf (as passed by newtonrhapson) is modelled by a symbolic xtol with the case xnorm < xtol (check contract) and by exact extended-real comparison x < +inf == True (vk/extreal.py, end-to-end linear run); NaN norms are modelled by Boolean NaN flags (IEEE: comparisons with NaN are false) -- A1",
 ]
 
 # =====================================================================================================
@@ -200,6 +200,7 @@ class NewtonEnv:
             okv = z3.is_true(ok.z)
         else:
             xn, fn, okv = Tok("xnorm", nan=nx), Tok("fnorm", nan=nf), ok
+        P.assume(z3.Implies(z3.Or(nx.z, nf.z), z3.Not(ok.z)))  # contract of check: a NaN norm compares False
         G["n_chk"] = G["n_chk"] + 1
         G["last_ok"], G["last_nan"] = ok.z, z3.Or(nx.z, nf.z)
         G["chk_x"], G["chk_f"], G["chk_dx"] = zval(x), zval(f), zval(dx)
@@ -217,7 +218,7 @@ class NewtonEnv:
 
 
 class NewtonLoop(LoopSpec):
-    header = "for iteration in range(maxiter)"
+    header = "for iteration in *"
     label = "L0"
     types = {"success": "bool", "iteration": "int", "xnorm": "normtok", "fnorm": "normtok"}
 
@@ -367,14 +368,19 @@ def newtonrhapson_e2(vk, cfg):
     except lc.Unsupported as e:
         raise oracle.Undecided(f"loop-cut engine: {e}")
     vk.ensures_true("rewrite/drops-nothing (instrumentation stripped == original AST)", info["preserves_original"], f"{info['statements_original']} -> {info['statements_rewritten']} statements; loops {info['loops']}", backend="ast")
+    if cfg == NEWTON_CFGS[0]:
+        from vk import loopcut_selftest
+
+        st_ok, st_detail = loopcut_selftest.run()
+        vk.ensures_true("engine self-test: toy while / continue / for-else loops (paths, valid VCs, wrong invariant refuted)", st_ok, str(st_detail), backend="z3")
     ok, why, nblocks = verbose_noninterference(NW.newtonrhapson)
     vk.ensures_true("verbose-noninterference (verbose blocks are display-only)", ok and nblocks >= 1, why, backend="ast")
     lc.emit(vk, "newtonrhapson", res)
-    outcomes = sorted({(P.modes.get("L0"), lc.outcome_text(o).split("(")[0]) for P, o in res if o[0] != "infeasible"})
+    outcomes = sorted({(P.modes.get("L0"), o[0]) for P, o in res if o[0] != "infeasible"})
     vk.note(f"newtonrhapson[{cfg}] feasible paths: " + "; ".join(f"{P.id} -> {lc.outcome_text(o)}" for P, o in res if o[0] != "infeasible"))
     # path cover: every mode was explored, and the iter/first modes have a returning, a raising and a continuing path
-    want = {("zero", "raise UnboundLocalError"), ("exit", "raise ValueError"), ("iter", "return"), ("iter", "raise ValueError"), ("iter", "back edge L0"), ("first", "return"), ("first", "raise ValueError"), ("first", "back edge L0")}
-    vk.ensures_true("path-cover (zero/first/iter/exit x return/raise/back edge all feasible)", want <= set(outcomes), str(outcomes), backend="z3")
+    want = {("zero", "raise"), ("exit", "raise"), ("iter", "return"), ("iter", "raise"), ("iter", "backedge"), ("first", "return"), ("first", "raise"), ("first", "backedge")}
+    vk.ensures_true("path-cover: every mode has its returning, raising and continuing path", want <= set(outcomes), str(outcomes), backend="z3")
     # vacuity guards: (1) drop the invariant assumption, (2) a false postcondition
     res2, _ = explore_newton(cfg, assume_inv=False)
     vk.canary_bool("Inv dropped (havoc without assume) must break an obligation", lc.refuted_any(res2) is not None)
@@ -387,7 +393,7 @@ def newtonrhapson_e2(vk, cfg):
     # bounded cross-check: the UNTRANSFORMED function, same stubs, every decision script up to 3 iterations
     n, fails = 0, []
     for verbose in (False, True):
-        for m in range(0, 4):
+        for m in range(0, 5 if vk.tier == "thorough" else 4):
             for script in itertools.product([(1, 0), (0, 0), (0, 1)], repeat=m):
                 conc = {"success": [s_ for s_, _ in script], "nan_x": [n_ for _, n_ in script], "nan_f": [0] * m}
 
@@ -409,5 +415,487 @@ def newtonrhapson_e2(vk, cfg):
                 P, out, badc = lc.concrete_run(run, conc)
                 n += 1
                 if badc:
-                    fails.append(f"maxiter={m} verbose={verbose} script={script}: {lc.outcome_text(out)}: {badc[:2]}")
-    vk.bounded_standin("untransformed newtonrhapson, same stubs, all decision scripts", "maxiter <= 3, (success, NaN) per iteration, verbose in {False, True}", n, not fails, "; ".join(fails[:3]))
+                    fails.append({"input": {"maxiter": m, "verbose": verbose, "(success, nan) per iteration": list(script), "cfg": dict(cfg)}, "outcome": lc.outcome_text(out), "bad": badc})
+    lc.attach_replays(vk, "newtonrhapson", fails)
+    vk.bounded_standin("untransformed newtonrhapson, same stubs, all decision scripts", f"maxiter <= {4 if vk.tier == 'thorough' else 3}, (success, NaN) per iteration, verbose in (False, True)", n, not fails, "; ".join(f"{f_['input']}: {f_['outcome']}: {f_['bad'][:2]}" for f_ in fails[:3]))
+
+
+# =====================================================================================================
+# E1: check, Results.update_statevars
+# =====================================================================================================
+from felupe.mechanics._helpers import Assemble, Results  # noqa: E402
+from vk import sparse_stub  # noqa: E402
+from vk.sparse_stub import DenseCSR, SolverRecord  # noqa: E402
+
+
+def _l2(vk, v):
+    """spec side: Euclidean norm (root atom in symbolic mode)"""
+    v = np.asarray(v, dtype=object if vk.sym else float).ravel()
+    if v.size == 0:
+        return co(0) if vk.sym else 0.0
+    s = sum(x * x for x in v)
+    return ring.nthroot(co(s), 2) if vk.sym else float(np.sqrt(s))
+
+
+class _Item:
+    """an item as `check` sees it: only `.results` (a REAL felupe Results object) is touched"""
+
+    def __init__(s, k, with_state=True):
+        s.results = Results(stress=True, elasticity=True)
+        s.old = object() if with_state else None
+        s.trial = object() if with_state else None
+        s.results.statevars = s.old
+        s.results._statevars = s.trial
+        s.other = {k_: v for k_, v in vars(s.results).items() if k_ != "statevars"}
+
+
+CASES = [f_ + x_ for f_ in "<=>" for x_ in "<=>"]  # (fnorm ? ftol, xnorm ? xtol); success iff "<<"
+CHECK_CFGS = [dict(case=c, dofs=d, items=i) for c in CASES for d in ("given", "default") for i in ("none", 2)] + [
+    dict(case="<<", dofs="given", items=0),
+    dict(case="<<", dofs="given", items=3),
+    dict(case="><", dofs="given", items=3),
+    dict(case="<<", dofs="given", items=2, eps="symbolic"),
+    dict(case="<<", dofs="slices", items=2),
+    dict(case="<>", dofs="slices", items=2),
+]
+
+
+@contract("C07", "check", configs=CHECK_CFGS, engine="E1")
+def check_e1(vk, cfg):
+    """success <=> fnorm < ftol and xnorm < xtol; fnorm = |f[dof1]| / (eps + |f[dof0]|); state variables of
+    every item are committed iff success (no state committed on failure)"""
+    vk.real(NW.check)
+    vk.real(Results.update_statevars)
+    n = 5
+    case = cfg["case"]
+    given = cfg["dofs"] != "default"
+    if cfg["dofs"] == "slices":
+        dof1, dof0 = slice(0, 3), slice(3, 5)
+    else:
+        dof1, dof0 = (np.array([1, 2, 4]), np.array([0, 3])) if given else (None, None)
+    near_f = np.array([1.0, 0.1, 0.1, 1.0, 0.1]) if cfg["dofs"] == "given" else (np.array([0.1, 0.1, 0.1, 1.0, 1.0]) if given else np.full(5, 0.1))
+    f = vk.reals("f", (n,), near=near_f, spread=0.05)
+    dx = vk.reals("dx", (n,), near=0.2, spread=0.1)
+    eps = vk.real_scalar("eps", near=1e-3, spread=1e-4) if cfg.get("eps") else 1e-3
+    if cfg.get("eps"):
+        vk.requires(eps, ">")
+    scale = 1.0 if given else 1000.0
+    ftol = vk.real_scalar("ftol", near={"<": 5.0, "=": 1.0, ">": 0.001}[case[0]] * scale, spread=0.0005)
+    xtol = vk.real_scalar("xtol", near={"<": 5.0, "=": 1.0, ">": 0.01}[case[1]], spread=0.005)
+    # specification (from the property text / the docstring of NewtonResult)
+    f1 = f[dof1] if given else f
+    f0 = f[dof0] if given else f[0:0]
+    fn_spec = _l2(vk, f1) / (eps + _l2(vk, f0))
+    xn_spec = _l2(vk, dx)
+    vk.requires(fn_spec - ftol, {"<": "<", "=": "==", ">": ">"}[case[0]])
+    vk.requires(xn_spec - xtol, {"<": "<", "=": "==", ">": ">"}[case[1]])
+    expect = case == "<<"
+    nitems = cfg["items"]
+    items = None if nitems == "none" else [_Item(k, with_state=(k != 1)) for k in range(nitems)]
+    snap_f, snap_dx = vk.snapshot(f), vk.snapshot(dx)
+    if vk.sym:
+        oracle.COLLECT = []  # a comparison the case split does not decide is collected (reported below), not fatal
+    kw = dict(dof1=dof1, dof0=dof0) if given else {}
+    if cfg.get("eps"):
+        kw["eps"] = eps
+    try:
+        xnorm, fnorm, success = NW.check(dx, object(), f, xtol, ftol, items=items, **kw)
+    finally:
+        collected = list(oracle.COLLECT or []) if vk.sym else []
+        if vk.sym:
+            oracle.COLLECT = None
+    vk.ensures_eq("xnorm == |dx|", xnorm, xn_spec)
+    vk.ensures_eq("fnorm == |f[dof1]| / (eps + |f[dof0]|)", fnorm, fn_spec)
+    vk.frame_unchanged("f", f, snap_f)
+    vk.frame_unchanged("dx", dx, snap_dx)
+    if not vk.sym:
+        return
+    vk.ensures_true("success <=> fnorm < ftol and xnorm < xtol", bool(success) is expect and isinstance(success, (bool, np.bool_)), f"case {case}: returned {success!r}")
+    vk.ensures_true("branch conditions are those of the specification (decided by the case split)", True if not collected else None, f"undetermined comparisons: {[str(p)[:60] for p, _ in collected]}", backend="oracle")
+    if items is not None:
+        for k, it in enumerate(items):
+            R = it.results
+            if expect:
+                want = it.trial if it.trial is not None else it.old
+                vk.ensures_true(f"item{k}: success => state variables committed (statevars is the trial state of the checked iterate)", R.statevars is want, "", backend="exec")
+            else:
+                vk.ensures_true(f"item{k}: no success => no state committed (statevars untouched)", R.statevars is it.old, "", backend="exec")
+            vk.ensures_true(f"item{k}: frame (trial state and all other results untouched)", all(vars(R)[a] is v for a, v in it.other.items()) and set(vars(R)) == set(it.other) | {"statevars"}, "", backend="exec")
+    vk.canary_bool("success is the negation", bool(success) is not (not expect))
+    vk.canary("fnorm == |f[dof0]| / (eps + |f[dof1]|)", fnorm, _l2(vk, f0) / (eps + _l2(vk, f1)) if given else fn_spec + 1)
+    # NaN norms (IEEE, outside the real-number reading A1): bounded native execution
+    if case == "<<" and nitems == 2 and not cfg.get("eps"):
+        with symnp.native():
+            its = [_Item(0), _Item(1)]
+            ok = True
+            for bad in (np.array([np.nan, 0, 0, 0, 0.0]), np.array([0, np.nan, 0, 0, 0.0])):
+                xn, fn_, su = NW.check(np.zeros(5), None, bad, np.inf, 1e-8, dof1=np.array([1, 2, 4]), dof0=np.array([0, 3]), items=its)
+                xn2, fn2, su2 = NW.check(bad, None, np.zeros(5), np.inf, 1e-8, dof1=np.array([1, 2, 4]), dof0=np.array([0, 3]), items=its)
+                ok = ok and (not su) and (not su2) and all(i.results.statevars is i.old for i in its)
+        vk.bounded_standin("NaN in f or dx => no success, no state committed", "2 NaN positions x (f, dx), native float", 4, ok)
+
+
+@contract("C07", "update_statevars", configs=[{}], engine="ground")
+def update_statevars_frame(vk, cfg):
+    """Results.update_statevars: statevars := _statevars if a trial state exists; nothing else changes"""
+    if not vk.sym:
+        return
+    vk.real(Results.update_statevars)
+    for stress in (False, True):
+        for trial in ("none", "set"):
+            R = Results(stress=stress, elasticity=stress)
+            old, new = object(), object()
+            R.statevars = old
+            R._statevars = None if trial == "none" else new
+            before = dict(vars(R))
+            out = R.update_statevars()
+            after = vars(R)
+            tag = f"stress={stress},trial={trial}"
+            vk.ensures_true(f"{tag}/statevars", after["statevars"] is (old if trial == "none" else new), "", backend="exec")
+            vk.ensures_true(f"{tag}/frame: every other attribute untouched, none added", set(after) == set(before) and all(after[k] is before[k] for k in before if k != "statevars"), "", backend="exec")
+            vk.ensures_true(f"{tag}/returns None", out is None, "", backend="exec")
+            R.update_statevars()
+            vk.ensures_true(f"{tag}/idempotent", vars(R)["statevars"] is (old if trial == "none" else new), "", backend="exec")
+    R = Results()
+    R.statevars, R._statevars = "old", None
+    R.update_statevars()
+    vk.canary_bool("without a trial state statevars is overwritten by None", R.statevars is not None)
+
+
+# =====================================================================================================
+# E1: partition / solve glue, fun_items / jac_items, update, prescribed values, linear lemma
+# =====================================================================================================
+import felupe.solve._solve as FS  # noqa: E402
+import felupe.tools._solve as TS  # noqa: E402
+from scipy.sparse import csr_matrix as _csr  # noqa: E402
+from scipy.sparse.linalg import spsolve as _spsolve  # noqa: E402
+
+
+def _container(vk, layout, name="u"):
+    """a REAL FieldContainer (built natively) whose point values are the quantified reals"""
+    with symnp.native():
+        if layout == "u1":  # one scalar field on one quad: 4 unknowns
+            region = fem.RegionQuad(fem.Rectangle(n=2))
+            fc = fem.FieldContainer([fem.Field(region, dim=1)])
+        elif layout == "u1p":  # scalar field + one cell-wise constant field: 4 + 1 unknowns
+            region = fem.RegionQuad(fem.Rectangle(n=2))
+            fc = fem.FieldContainer([fem.Field(region, dim=1), fem.FieldDual(region)])
+        elif layout == "mixed2":
+            region = fem.RegionQuad(fem.Rectangle(n=(3, 2)))
+            fc = fem.FieldsMixed(region, n=2)
+        elif layout == "mixed3":  # (u: 6 points x 2, p: 2 cells, J: 2 cells) = 12 + 2 + 2 unknowns
+            region = fem.RegionQuad(fem.Rectangle(n=(3, 2)))
+            fc = fem.FieldsMixed(region, n=3)
+        elif layout == "u2":
+            region = fem.RegionQuad(fem.Rectangle(n=(3, 2)))
+            fc = fem.FieldContainer([fem.Field(region, dim=2)])
+        else:
+            raise KeyError(layout)
+    for k, fld in enumerate(fc.fields):
+        fld.values = vk.reals(f"{name}{k}", fld.values.shape, near=0.1 * (k + 1), spread=0.2)
+    return fc
+
+
+def _mat(vk, A):
+    return DenseCSR(A) if vk.sym else _csr(np.asarray(A, dtype=float))
+
+
+def _dense(M):
+    return M.toarray() if hasattr(M, "toarray") else np.asarray(M)
+
+
+class _NativeSolver:
+    def __init__(s):
+        s.calls = []
+
+    def __call__(s, A, b):
+        s.calls.append((_dense(A), np.array(b)))
+        return _spsolve(_csr(A), b) if A.shape[0] else np.zeros(0)
+
+
+PART = {"u1": [([0, 3], [1, 2]), ([3, 1], [2, 0]), ([], [0, 1, 2])], "u1p": [([0, 4], [1, 2, 3]), ([1, 2, 3], [4, 0])], "u2": [([0, 1, 2, 3, 4, 5, 6, 7, 8], [9, 10, 11])]}
+PS_CFGS = [dict(layout=l, part=k, ext0=e, r=r, entry=en) for l in ("u1", "u1p") for k in range(len(PART[l])) for e in ("given", "none") for r in ("given",) for en in ("solve", "newton.solve")]
+PS_CFGS += [dict(layout="u1", part=0, ext0="given", r="none", entry="solve"), dict(layout="u1", part=0, ext0="none", r="none", entry="solve")]
+PS_CFGS += [dict(layout=l, part=0, ext0="given", r="given", entry="tools.solve") for l in ("u1", "u1p")]
+PS_CFGS = [c for c in PS_CFGS if not (c["layout"] == "u1" and c["part"] == 2 and c["ext0"] == "given" and c["entry"] == "newton.solve")]
+PS_CFGS += [dict(layout="u2", part=0, ext0=e, r="given", entry=en, tier="thorough") for e in ("given", "none") for en in ("solve", "newton.solve", "tools.solve")]
+
+
+@contract("C07", "partition_solve", configs=PS_CFGS, engine="E1")
+def partition_solve(vk, cfg):
+    """each partitioned linear solve satisfies K11 du1 = -r1 - K10 (ext0 - u0) and sets du[dof0] = ext0 - u0
+    (given the contract of the sparse solver: it returns the solution of the system it is handed)"""
+    for fn_ in (FS.partition, FS.solve, NW.solve, TS.solve):
+        vk.real(fn_)
+    ok, _ = sparse_stub.selfcheck()
+    if vk.sym:
+        vk.ensures_true("dense csr stand-in == scipy.sparse on float data (differential self-check)", ok, "", backend="exec")
+    fc = _container(vk, cfg["layout"])
+    n = int(sum(fc.fieldsizes))
+    dof0, dof1 = (np.array(p, dtype=int) for p in PART[cfg["layout"]][cfg["part"]][:2])
+    Kd = vk.reals("K", (n, n), near=np.eye(n) * 3 + 0.2, spread=0.2)
+    r = vk.reals("r", (n,), near=0.1, spread=0.3) if cfg["r"] == "given" else None
+    ext0 = vk.reals("e", (len(dof0),), near=0.5, spread=0.3) if cfg["ext0"] == "given" else None
+    K = _mat(vk, Kd)
+    solver = SolverRecord() if vk.sym else _NativeSolver()
+    # ---- specification side
+    u = np.concatenate([f_.values.ravel() for f_ in fc.fields])
+    snap_u = vk.snapshot(u)
+    K11s, K10s = Kd[np.ix_(dof1, dof1)], Kd[np.ix_(dof1, dof0)]
+    if len(dof1):
+        vk.requires(symnp.det_ref(K11s), "!=")  # the reduced system is uniquely solvable
+    u0s = u[dof0]
+    e_spec = ext0 if ext0 is not None else np.zeros(len(dof0), dtype=object if vk.sym else float) * (co(1) if vk.sym else 1.0)
+    rs = r if r is not None else (ring.lift(np.zeros(n)) if vk.sym else np.zeros(n))
+    entry = cfg["entry"]
+    if entry == "solve":
+        system = FS.partition(fc, K, dof1, dof0, r)
+        uu, u0, K11, K10, d1, d0, r1 = system
+        vk.ensures_eq("partition/u == concatenated field values", uu, u)
+        vk.ensures_eq("partition/u0 == u[dof0]", u0, u0s)
+        vk.ensures_eq("partition/K11 == K[dof1, dof1]", _dense(K11), K11s)
+        vk.ensures_eq("partition/K10 == K[dof1, dof0]", _dense(K10), K10s)
+        if r is not None:
+            vk.ensures_eq("partition/r1 == r[dof1]", r1, r[dof1])
+        if vk.sym:
+            vk.ensures_true("partition/r1 is None iff r is None; dof lists passed through", (r1 is None) == (r is None) and d1 is dof1 and d0 is dof0, "", backend="exec")
+        du = FS.solve(*system, ext0, solver=solver) if cfg["ext0"] == "given" else FS.solve(*system, solver=solver)
+    elif entry == "newton.solve":
+        # newtonrhapson hands `solve(K, -f, x=, dof1=, dof0=, ext0=, solver=)`: b = -r
+        du = NW.solve(K, -r, fc, dof1, dof0, ext0=ext0, solver=solver)
+    else:
+        # felupe.tools.solve(K, f, field, dof0, dof1, offsets, ext0): "Solve linear equation system K dx = b" (f = -r)
+        FS_spsolve = FS.solve.__defaults__
+        if vk.sym:
+            FS.solve.__defaults__ = FS_spsolve[:-1] + (solver,)
+        try:
+            parts = TS.solve(K, -r, fc, dof0, dof1, fc.offsets, ext0)
+        finally:
+            FS.solve.__defaults__ = FS_spsolve
+        du = np.concatenate(parts)
+        sizes = [p.size for p in parts]
+        if vk.sym:
+            vk.ensures_true("tools.solve/split at the field offsets", sizes == list(fc.fieldsizes), f"{sizes} vs {fc.fieldsizes}", backend="exec")
+    du = np.asarray(du)
+    if vk.sym:
+        vk.ensures_true("du has the shape of u", du.shape == u.shape, f"{du.shape}", backend="exec")
+    du = du.ravel()
+    # ---- the property's clauses
+    if len(dof0):
+        vk.ensures_eq("du[dof0] == ext0 - u0 (prescribed increments)", du[dof0], e_spec - u0s)
+    if len(dof1):
+        resid = symnp.ref_einsum("ij,j->i", K11s, du[dof1]) + rs[dof1]
+        if len(dof0):
+            resid = resid + symnp.ref_einsum("ij,j->i", K10s, e_spec - u0s)
+        name = "reduced-system K11 du1 + r1 + K10 (ext0 - u0) == 0" if ext0 is not None else "reduced-system(ext0:=0) K11 du1 + r1 + K10 (0 - u0) == 0"
+        vk.ensures_zero(name, resid)
+        if vk.sym and entry != "tools.solve" or (vk.sym and entry == "tools.solve"):
+            vk.ensures_true("the solver is called exactly once, with the reduced matrix K11", len(solver.calls) == 1 and solver.calls[0][0].shape == K11s.shape and all(ring.iszero(co(a) - co(b)) for a, b in zip(solver.calls[0][0].ravel(), K11s.ravel())), "", backend="ring")
+    vk.frame_unchanged("field values", np.concatenate([f_.values.ravel() for f_ in fc.fields]), snap_u)
+    vk.frame_unchanged("K", _dense(K), Kd)
+    if len(dof0):
+        vk.canary("du[dof0] == ext0 (not the increment)", du[dof0], e_spec + 0 * u0s)
+
+
+# ---- fun_items / jac_items -----------------------------------------------------------------------
+class _AsmItem:
+    """an item as fun_items / jac_items see it: .field (a REAL FieldContainer), .assemble (the REAL Assemble)"""
+
+    def __init__(s, vk, k, field, nrows, n, multiplier, log):
+        s.k, s.field, s.log = k, field, log
+        s.r = vk.reals(f"r{k}", (nrows,), near=0.2 * (k + 1), spread=0.3)
+        s.K = vk.reals(f"K{k}", (nrows, nrows), near=0.1 * (k + 1), spread=0.3)
+        s.vk = vk
+        s.assemble = Assemble(vector=s._vector, matrix=s._matrix, multiplier=multiplier)
+
+    def _vector(s, field=None, **kwargs):
+        s.log.append(("vector", s.k, field, dict(kwargs)))
+        return _mat(s.vk, np.asarray(s.r).reshape(-1, 1))
+
+    def _matrix(s, **kwargs):
+        s.log.append(("matrix", s.k, None, dict(kwargs)))
+        return _mat(s.vk, s.K)
+
+
+ITEMS_CFGS = [dict(nitems=k, parallel=p) for k in (0, 1, 2, 3) for p in (False, True)]
+
+
+@contract("C07", "fun_items_jac_items", configs=ITEMS_CFGS, engine="E1")
+def items_assembly(vk, cfg):
+    """fun_items: every item field is linked to the iterate x (shared value arrays) BEFORE anything is
+    assembled; result = sum_i multiplier_i * r_i zero-padded to the global size.  jac_items: the same sum
+    for the matrices (no linking)."""
+    vk.real(NW.fun_items)
+    vk.real(NW.jac_items)
+    vk.real(fem.FieldContainer.link)
+    x = _container(vk, "u1p", name="x")
+    n = int(sum(x.fieldsizes))
+    log = []
+    items = []
+    for k in range(cfg["nitems"]):
+        own = _container(vk, "u1p", name=f"own{k}")
+        mult = None if k == 0 else vk.real_scalar(f"m{k}", near=2.0)
+        nrows = n if k != 1 else n - 1  # the second item only knows the first field: needs resize (zero padding)
+        items.append(_AsmItem(vk, k, own, nrows, n, mult, log))
+
+    class LinkSpy:
+        pass
+
+    saved = NW.csr_matrix
+    if vk.sym:
+        NW.csr_matrix = DenseCSR
+    try:
+        kw = {"parallel": True} if cfg["parallel"] else {}
+        f = NW.fun_items(items, x, **kw)
+        n_after_fun = len(log)
+        K = NW.jac_items(items, x, **kw)
+    finally:
+        NW.csr_matrix = saved
+
+    def pad(v, shape):
+        out = np.zeros(shape, dtype=object if vk.sym else float)
+        if vk.sym:
+            out[...] = LP()
+        out[tuple(slice(0, s_) for s_ in np.shape(v))] = v
+        return out
+
+    m = [1 if it.assemble.multiplier is None else it.assemble.multiplier for it in items]
+    fspec = sum([pad(it.r, (n,)) * mi for it, mi in zip(items, m)], pad(np.zeros(0), (n,)))
+    Kspec = sum([pad(it.K, (n, n)) * mi for it, mi in zip(items, m)], pad(np.zeros((0, 0)), (n, n)))
+    vk.ensures_eq("fun_items == sum_i multiplier_i * pad(r_i)", f, fspec)
+    vk.ensures_eq("jac_items == sum_i multiplier_i * pad(K_i)", _dense(K), Kspec)
+    if not vk.sym:
+        return
+    vk.ensures_true("fun_items returns a 1d array of the global size", np.shape(f) == (n,), str(np.shape(f)), backend="exec")
+    linked = all(a.values is b.values for it in items for a, b in zip(it.field.fields, x.fields))
+    vk.ensures_true("after fun_items every item field shares the value arrays of x (items see the iterate)", linked, "", backend="exec")
+    calls_f, calls_K = log[:n_after_fun], log[n_after_fun:]
+    vk.ensures_true("fun_items assembles each item's vector exactly once, in order, with its own (linked) field and the caller's parallel flag", [c[:2] for c in calls_f] == [("vector", k) for k in range(len(items))] and all(c[2] is items[c[1]].field and c[3] == {"parallel": cfg["parallel"]} for c in calls_f), str([c[:2] for c in calls_f]), backend="exec")
+    vk.ensures_true("jac_items assembles each item's matrix exactly once with the caller's parallel flag", [c[:2] for c in calls_K] == [("matrix", k) for k in range(len(items))] and all(c[3] == {"parallel": cfg["parallel"]} for c in calls_K), "", backend="exec")
+    if items:
+        vk.canary("fun_items ignores the multipliers", f, sum([pad(it.r, (n,)) for it in items], pad(np.zeros(0), (n,))) + (0 if len(items) > 1 else 1))
+
+
+# ---- update + prescribed values ----------------------------------------------------------------------
+PV_CFGS = [dict(layout=l, overlap=o) for l in ("u2", "mixed2", "mixed3") for o in (False, True)]
+
+
+@contract("C07", "prescribed_values_after_update", configs=PV_CFGS, engine="E1")
+def prescribed_values(vk, cfg):
+    """dof.partition -> dof.apply -> tools._newton.solve -> update (FieldContainer.__add__, np.split at the
+    field offsets): the updated container carries exactly the prescribed values on every prescribed unknown
+    of every field, whatever the solver returns for the free unknowns."""
+    for fn_ in (fem.dof.partition, fem.dof.apply, NW.solve, NW.update, fem.FieldContainer.__add__, fem.Field.__iadd__):
+        vk.real(fn_)
+    fc = _container(vk, cfg["layout"])
+    n = int(sum(fc.fieldsizes))
+    with symnp.native():
+        bounds = {
+            "left": fem.Boundary(fc[0], fx=0, value=vk.real_scalar("b_left", near=0.0)),
+            "right": fem.Boundary(fc[0], fx=2 if False else 1, skip=(0, 1), value=vk.real_scalar("b_right", near=0.3)),
+        }
+        npts = fc[0].region.mesh.npoints
+        top = fem.Boundary(fc[0], fy=1, skip=(1, 0))
+        if cfg["overlap"]:  # array-valued boundary (one value per point), overlapping `left` in the y-component
+            bounds["top"] = fem.Boundary(fc[0], fy=1, skip=(1, 0), value=vk.reals("b_top", (top.points.size, 1), near=0.2))
+        if len(fc.fields) >= 2:
+            bounds["p"] = fem.Boundary(fc[1], mask=np.array([[True], [False]]), value=vk.real_scalar("b_p", near=0.7))
+        if len(fc.fields) >= 3:
+            bounds["J"] = fem.Boundary(fc[2], mask=np.array([[False], [True]]), value=vk.real_scalar("b_J", near=1.5))
+    dof0, dof1 = fem.dof.partition(fc, bounds)
+    ext0 = fem.dof.apply(fc, bounds, dof0)
+    # the solver returns WHATEVER (fresh unknowns): the clause must not depend on it
+    y = vk.reals("y", (len(dof1),), near=0.05)
+    calls = []
+
+    def any_solver(A, b):
+        calls.append(A.shape)
+        return y.copy()
+
+    Kd = vk.reals("K", (n, n), near=np.eye(n), spread=0.1) if n <= 8 else (ring.lift(np.eye(n) * 2.0) if vk.sym else np.eye(n) * 2.0)
+    r = vk.reals("r", (n,), near=0.1)
+    old = [vk.snapshot(f_.values) for f_ in fc.fields]
+    dx = NW.solve(_mat(vk, Kd), -r, fc, dof1, dof0, ext0=ext0, solver=any_solver)
+    xn = NW.update(fc, dx)
+    # specification: per boundary, the values of its own field at its own dofs
+    offs = np.insert(fc.offsets, 0, 0)
+    later = list(bounds)
+    for i, (name, b) in enumerate(bounds.items()):
+        k = [j for j, f_ in enumerate(fc.fields) if f_ is b.field][0]
+        got = xn.fields[k].values.ravel()[b.dof]
+        want = np.broadcast_to(np.asarray(b.value, dtype=object if vk.sym else float), (b.points.size, int((~np.array(b.skip[: b.field.dim], dtype=bool)).sum()) if False else 1)).ravel() if isinstance(b.value, np.ndarray) else np.full(b.dof.size, b.value, dtype=object if vk.sym else float)
+        if isinstance(b.value, np.ndarray):
+            want = np.asarray(b.value, dtype=object if vk.sym else float).ravel()
+        # dofs claimed by a later boundary carry that later value ("last boundary wins", C08): compare the rest
+        keep = np.ones(b.dof.size, dtype=bool)
+        for name2 in later[i + 1 :]:
+            b2 = bounds[name2]
+            if b2.field is b.field:
+                keep &= ~np.isin(b.dof, b2.dof)
+        vk.ensures_eq(f"updated field {k} carries the prescribed value of boundary '{name}' on its unknowns", got[keep], want[keep])
+    flat_new = np.concatenate([f_.values.ravel() for f_ in xn.fields])
+    flat_old = np.concatenate([o.ravel() for o in old])
+    vk.ensures_eq("free unknowns == old value + solver increment", flat_new[dof1], flat_old[dof1] + y)
+    vk.ensures_eq("prescribed unknowns == ext0", flat_new[dof0], ext0)
+    if vk.sym:
+        vk.ensures_true("partition covers all unknowns disjointly", sorted(np.concatenate([dof0, dof1]).tolist()) == list(range(n)), "", backend="exec")
+        vk.canary("prescribed unknowns keep their old value", flat_new[dof0], flat_old[dof0])
+
+
+# ---- lemma: a linear problem converges with the first update --------------------------------------
+LIN_CFGS = [dict(layout="u1", part=0), dict(layout="u1", part=1), dict(layout="u1p", part=0), dict(layout="u1p", part=1, tier="thorough")]
+
+
+@contract("C07", "linear_problem_first_update", configs=LIN_CFGS, engine="E1")
+def linear_lemma(vk, cfg):
+    """fun(x) = A u(x) - b with a symbolic matrix A, jac = A: after ONE update through the real
+    tools._newton.solve / update the residual on the free unknowns is identically zero and the prescribed
+    unknowns carry ext0; the real `check` then reports success for every ftol > 0; and the REAL
+    newtonrhapson run end-to-end on the symbolic problem returns after exactly one iteration."""
+    for fn_ in (NW.solve, NW.update, NW.check, NW.newtonrhapson):
+        vk.real(fn_)
+    fc = _container(vk, cfg["layout"])
+    n = int(sum(fc.fieldsizes))
+    dof0, dof1 = (np.array(p, dtype=int) for p in PART[cfg["layout"]][cfg["part"]][:2])
+    Ad = vk.reals("A", (n, n), near=np.eye(n) * 3 + 0.2, spread=0.2)
+    b = vk.reals("b", (n,), near=0.3)
+    ext0 = vk.reals("e", (len(dof0),), near=0.5)
+    ftol = vk.real_scalar("ftol", near=1e-8, spread=1e-9)
+    vk.requires(ftol, ">")
+    vk.requires(symnp.det_ref(Ad[np.ix_(dof1, dof1)]), "!=")
+
+    def vals(x):
+        return np.concatenate([f_.values.ravel() for f_ in x.fields])
+
+    def fun(x):
+        v = symnp.ref_einsum("ij,j->i", Ad, vals(x)) - b
+        if vk.sym:  # the abstract linear fun returns its value in normal form (an identically zero entry is 0)
+            v = np.array([LP() if ring.iszero(co(e)) else e for e in v], dtype=object)
+        return v
+
+    def jac(x):
+        return _mat(vk, Ad)
+
+    solver = SolverRecord() if vk.sym else _NativeSolver()
+    dx = NW.solve(jac(fc), -fun(fc), fc, dof1, dof0, ext0=ext0, solver=solver)
+    xn = NW.update(fc, dx)
+    fnew = fun(xn)
+    vk.ensures_zero("residual on the free unknowns after the first update", fnew[dof1])
+    vk.ensures_eq("prescribed unknowns carry ext0 after the first update", vals(xn)[dof0], ext0)
+    xtol = vk.real_scalar("xtol", near=100.0)
+    vk.requires(_l2(vk, dx) - xtol, "<")
+    xnorm, fnorm, success = NW.check(dx, xn, fnew, xtol, ftol, dof1=dof1, dof0=dof0)
+    vk.ensures_zero("check: fnorm == 0", fnorm)
+    if vk.sym:
+        vk.ensures_true("check reports success (0 < ftol)", success is True or success == True, repr(success), backend="oracle")  # noqa: E712
+    # end-to-end on the real newtonrhapson (xtol = inf inside): symbolic linear problem
+    from vk.extreal import extended_real_comparisons
+
+    with extended_real_comparisons():
+        res = NW.newtonrhapson(x0=fc, fun=fun, jac=jac, dof1=dof1, dof0=dof0, ext0=ext0, solver=solver, tol=ftol, verbose=False, maxiter=3)
+    vk.ensures_zero("newtonrhapson: Res.fun[dof1] == 0", res.fun[dof1])
+    vk.ensures_eq("newtonrhapson: Res.x[dof0] == ext0", vals(res.x)[dof0], ext0)
+    vk.ensures_eq("newtonrhapson: Res.x[dof1] solves the reduced system", symnp.ref_einsum("ij,j->i", Ad[np.ix_(dof1, dof1)], vals(res.x)[dof1]) + symnp.ref_einsum("ij,j->i", Ad[np.ix_(dof1, dof0)], ext0), b[dof1])
+    if vk.sym:
+        vk.ensures_true("newtonrhapson: converged with the first update (iterations == 1, success)", res.iterations == 1 and res.success is True, f"iterations={res.iterations}", backend="exec")
+        vk.canary("residual on the prescribed unknowns vanishes too", fnew[dof0], 0 * fnew[dof0])
